@@ -40,6 +40,8 @@ CHECKS = {
          "TLA+ acceptors (Markup.tla pushdown / line machine, HelpModel.tla listing) validating lexed real documents", "6 (C16)"),
  "C13": ("exploration", "Wrap.tla is an acceptor of console renderings (content with whitespace removed equals the unwrapped rendering; for widths >= 40 every line fits in width+2, is preformatted, or holds a single word after its indentation/definition term); WrapDesign model-checks that the greedy wrap of every small word sequence is accepted (not vacuous, not over-strict); help and error documents of definitions with grammar-generated texts are rendered at 25 (quick) / 300 (thorough) widths and every rendering and short form is validated by TLC.",
          "TLA+ acceptor Wrap.tla (design-checked by WrapDesign) validating lexed real renderings at many widths", "6 (C13)"),
+ "C15": ("exploration", "ShellWords.tla models shell word lexing (quotes, escapes, operators, active characters), bpaf's directive templates for zsh and bash and the line protocol of fish/elvish; ShellDesign model-checks that bpaf's quoting of every short hostile string lexes back to exactly one inert word; every completion output for revisions 1/7/8/9 (with and without a name) over hostile typed words, help texts, masks, groups and completer values is lexed and judged by TLC against the candidates computed at revision 0 (directives well-formed, data words inert, each candidate and file completer exactly once); a sample of bash outputs is sourced in a sandboxed real bash with stubs and canaries.",
+         "TLA+ lexer/template acceptor ShellWords.tla (design-checked) validating real completion outputs; bash sandbox with canaries", "6 (C15)"),
 }
 NOTE = "Bounded: exhaustive within the stated constants, sampled beyond; trusted: TLC, the JSON reader, the dynamic builder (public bpaf API only)."
 
@@ -52,12 +54,14 @@ def main():
                    "baseline_off_cmd": "cd /repo && cargo nextest run --workspace --no-fail-fast --test-threads 8 --offline",
                    "source_commits": hook_commits, "add_only": True},
          "engines": [
-             {"name": "cmdline", "path": "tla/CmdLine.tla", "serves_properties": sorted(set(CHECKS) - {"C07", "C19", "C11", "C12", "C16", "C13"}),
+             {"name": "cmdline", "path": "tla/CmdLine.tla", "serves_properties": sorted(set(CHECKS) - {"C07", "C19", "C11", "C12", "C16", "C13", "C15"}),
               "kind_free_text": "TLA+ left-to-right acceptor with denotation; TLC design/replay/trace configurations; Rust harness building real bpaf parsers from the same JSON definitions"},
              {"name": "docs", "path": "tla/HelpModel.tla", "serves_properties": ["C12", "C16"],
               "kind_free_text": "Listing model of help/documentation (HelpModel.tla) and markup acceptors (Markup.tla); the harness renders and lexes, TLC judges"},
              {"name": "wrap", "path": "tla/Wrap.tla", "serves_properties": ["C13"],
               "kind_free_text": "acceptor of wrapped console output (Wrap.tla) with a design model (WrapDesign.tla)"},
+             {"name": "shell", "path": "tla/ShellWords.tla", "serves_properties": ["C15"],
+              "kind_free_text": "shell word lexer and directive templates (ShellWords.tla), quoting design model (ShellDesign.tla), trace judge (ShellTrace.tla)"},
              {"name": "process", "path": "tla/Process.tla", "serves_properties": ["C11"],
               "kind_free_text": "TLA+ protocol of a process built around OptionParser::run(); ProcessTrace validates recorded runs of harness-app"},
              {"name": "groupline", "path": "tla/GroupLine.tla", "serves_properties": ["C07", "C19"],
@@ -72,7 +76,7 @@ def main():
                                 "thorough_cmd": f"bin/check {pid} --tier thorough",
                                 "evidence_file": f"/verif/evidence/{pid}.json",
                                 "replay_cmd_template": f"bin/check {pid} --replay {{path}}",
-                                "engine": "groupline" if pid in ("C07", "C19") else "process" if pid == "C11" else "docs" if pid in ("C12", "C16") else "wrap" if pid == "C13" else "cmdline",
+                                "engine": "groupline" if pid in ("C07", "C19") else "process" if pid == "C11" else "docs" if pid in ("C12", "C16") else "wrap" if pid == "C13" else "shell" if pid == "C15" else "cmdline",
                                 "level_claimed": {"category": lvl, "text": text, "design_ref": f"DESIGN.md section {ref}"},
                                 "level_note": NOTE, "technique": tech})
         else:
